@@ -840,7 +840,7 @@ func CtxString(s *structpb.Struct) string {
 func NewAlgebraCase(r *rand.Rand, name string) *Case {
 	ids := map[string][]string{
 		"user": {"a", "b", "c", "d"}, "doc": {"d1", "d2", "d3", "d4", "d5", "d6", "d7"},
-		"group": {"g1"}, "folder": {"f1"},
+		"group": {"g1"}, "folder": {"f1"}, "document": {"d1", "d2", "d3", "d4"},
 	}
 	feat := map[string]bool{"algebra": true}
 	model := &openfgav1.AuthorizationModel{SchemaVersion: "1.1", Conditions: map[string]*openfgav1.Condition{}}
@@ -927,6 +927,13 @@ func NewAlgebraCase(r *rand.Rand, name string) *Case {
 		avail = append(avail, rn)
 	}
 	model.TypeDefinitions = append(model.TypeDefinitions, td)
+	// half of the cases have a second type whose NAME EXTENDS the first one's ("document" / "doc") with the
+	// same relations and the same object ids: lookups by type must not confuse them (prefix matching)
+	twin := r.Intn(2) == 0
+	if twin {
+		feat["prefix-twin-type"] = true
+		model.TypeDefinitions = append(model.TypeDefinitions, &openfgav1.TypeDefinition{Type: "document", Relations: td.Relations, Metadata: td.Metadata})
+	}
 	// permissive twin (same shape as NewCase's: every relation directly assignable to users and wildcards)
 	ptd := &openfgav1.TypeDefinition{Type: "doc", Relations: map[string]*openfgav1.Userset{}, Metadata: &openfgav1.Metadata{Relations: map[string]*openfgav1.RelationMetadata{}}}
 	for rn := range td.Relations {
@@ -934,6 +941,9 @@ func NewAlgebraCase(r *rand.Rand, name string) *Case {
 		ptd.Metadata.Relations[rn] = &openfgav1.RelationMetadata{DirectlyRelatedUserTypes: []*openfgav1.RelationReference{Ref("user", "", false, ""), Ref("user", "", true, "")}}
 	}
 	perm.TypeDefinitions = append(perm.TypeDefinitions, ptd)
+	if twin {
+		perm.TypeDefinitions = append(perm.TypeDefinitions, &openfgav1.TypeDefinition{Type: "document", Relations: ptd.Relations, Metadata: ptd.Metadata})
+	}
 	c := &Case{Name: name, Model: model, Permissive: perm, Features: feat, IDs: ids, Contexts: []*structpb.Struct{nil}}
 	for _, rn := range base {
 		density := []int{15, 35, 60, 85}[r.Intn(4)]
@@ -951,6 +961,18 @@ func NewAlgebraCase(r *rand.Rand, name string) *Case {
 						feat["leftover"] = true
 					}
 					c.Tuples = append(c.Tuples, &openfgav1.TupleKey{Object: "doc:" + d, Relation: rn, User: "user:" + u})
+				}
+			}
+		}
+	}
+	if twin {
+		// the twin type gets its own, different, sparse tuples on the same object ids
+		for _, rn := range base {
+			for _, d := range ids["document"] {
+				for _, u := range ids["user"] {
+					if plain[rn] && r.Intn(100) < 30 {
+						c.Tuples = append(c.Tuples, &openfgav1.TupleKey{Object: "document:" + d, Relation: rn, User: "user:" + u})
+					}
 				}
 			}
 		}
